@@ -58,6 +58,9 @@ def locks(rng, keys, cache, gen):
         deff(0, tri(iff(op('FALSE') + op('CALL') + b'\x00'), op('POP0')) + checksig) + op('CALL') + b'\x00',
         deff(1, tri(op('DEPTH') + push(b'\x01') + op('EQUAL') + iff(push(b'\x00') + op('CALL') + b'\x01') + op('FALSE') + op('VERIFY'), b'') + op('POP0') + hashlock) + op('CALL') + b'\x01',
         op('TRUE'), op('VERIFY') + op('TRUE'), b'',
+        # the final item must be exactly the one byte ff: integers / paddings that merely *equal* 255 or are truthy do not count
+        op('POP0') + push(rng.choice([b'\x00\xff', b'\xff\xff', b'\xff\x00', b'\x00\x00\xff', b'\x01', b'\xfe', b'\x7f'])),
+        push(bytes([rng.choice([200, 100, 254, 255])])) + push(bytes([55])) + op('ADD_INTS') + b'\x02' + op('SWAP2') + op('POP0'),
     ]
     return rng.choice(L), pre, pk
 
@@ -106,6 +109,15 @@ def gen(ctx: Ctx, n):
                    G.push(b'\x7f' + b'\xff' * 200) + op('INT_TO_FLOAT'), G.push(f32(1e-30)) + op('DIV_FLOAT') + f32(0.0), G.push(f32(3e38)) + op('DIV_FLOAT') + f32(1e-30),
                    G.push(f32(1.0)) + op('MOD_FLOAT') + f32(0.0), G.push(b'\x01') + op('DIV_INT') + b'\x01\x00', G.push(b'\xff\xfe') + op('SPLIT_STR') if 'SPLIT_STR' in G.names() else b'']
             scripts = [rng.choice(zoo) + rng.choice([b'', op('TRUE')])] + ([lock] if rng.random() < .5 else [])
+        if rng.random() < .03:
+            # a loop whose body makes calls: the calls of all iterations together count against the one budget
+            c_per = rng.choice([1, 2, 3]); k_it = rng.choice([2, 3, 4, 5])
+            call = op('CALL') + b'\x00'
+            body = call * c_per + G.push(b'\xff') + op('ADD_INTS') + b'\x02'            # n := n - 1
+            lk = op('DEF') + b'\x00' + (0).to_bytes(2, 'big') + op('LOOP') + len(body).to_bytes(2, 'big') + body + op('POP0') + op('TRUE')
+            scripts = [G.push(bytes([k_it])), lk]
+            cfg = vmrun.Cfg()
+            cfg.call_limit = max(1, c_per * k_it + rng.choice([-3, -2, -1, 0, 0, 1, 2]))
         if rng.random() < .04:
             # call budget spread over the scripts of the list: a function defined by the first script, a few calls in each
             # script, and a call limit at / just below / just above the total ("spending call budget" must carry forward)
